@@ -44,7 +44,13 @@ func newTypeTable(pkg *types.Package) *TypeTable {
 	}
 }
 
-func (tt *TypeTable) typeString(t types.Type) string { return types.TypeString(t, tt.qual) }
+func (tt *TypeTable) typeString(t types.Type) string {
+	s := types.TypeString(t, tt.qual)
+	// byte and uint8 (rune and int32) are the same type and must share one heap
+	s = strings.ReplaceAll(s, "byte", "uint8")
+	s = strings.ReplaceAll(s, "rune", "int32")
+	return s
+}
 
 func sanitize(s string) string {
 	var b strings.Builder
